@@ -83,8 +83,10 @@ Proof.
   intros K x y u v Wx Wy D Ix Iy.
   destruct x as [|i kvs| |]; simpl in Ix; try discriminate.
   destruct y as [|j kvs'| |]; simpl in Iy; try discriminate.
-  destruct (assoc_key K kvs) as [[iu u'| | |]|] eqn:Ax; try discriminate. inversion Ix; subst u'.
-  destruct (assoc_key K kvs') as [[iv v'| | |]|] eqn:Ay; try discriminate. inversion Iy; subst v'.
+  destruct (assoc_key K kvs) as [[iu u'| | |]|] eqn:Ax; try discriminate.
+  destruct (tag iu) eqn:Tu; try discriminate. inversion Ix; subst u'.
+  destruct (assoc_key K kvs') as [[iv v'| | |]|] eqn:Ay; try discriminate.
+  destruct (tag iv) eqn:Tv; try discriminate. inversion Iy; subst v'.
   destruct (wf_map_inv _ _ Wx) as [Xp _]. destruct (wf_map_inv _ _ Wy) as [Yp [Yn _]].
   rewrite data_eq_map in D. apply andb_true_iff in D. destruct D as [_ F]. rewrite forallb_forall in F.
   destruct (child_map_item _ _ _ Xp Ax) as [k [Hk Ek]].
@@ -155,7 +157,7 @@ Section KeyedInstance.
     okd (NMap i lkvs) -> okd (NMap j rkvs) -> KG (NMap i lkvs) (NMap j rkvs) ->
     In (k, rv) rkvs -> map_get k lkvs = Some lv -> KG lv rv.
   Proof.
-    intros i lkvs j rkvs k rv lv [WL _] [WR _] H Hin Eg. unfold KG in *.
+    intros i lkvs j rkvs k rv lv WL WR H Hin Eg. unfold KG in *.
     destruct (wf_map_inv _ _ WL) as [Lp [Ln _]]. destruct (wf_map_inv _ _ WR) as [Rp [Rn _]].
     assert (Pk : plain_leaf k = true) by (rewrite forallb_forall in Rp; apply (Rp (k, rv) Hin)).
     rewrite kguard_map in H. rewrite forallb_forall in H.
@@ -191,7 +193,7 @@ Section KeyedInstance.
   Qed.
 
   Lemma KG_equal : forall x y, okd x -> okd y -> KG x y -> data_eq x y = true -> equiv am hm x y = true.
-  Proof. intros x y [W1 _] [W2 _] H D. apply data_eq_equiv_keyed; auto. Qed.
+  Proof. intros x y W1 W2 H D. apply data_eq_equiv_keyed; auto. Qed.
 
   Lemma KG_key : forall i lels j rels d,
     okd (NSeq i lels) -> okd (NSeq j rels) -> KG (NSeq i lels) (NSeq j rels) ->
@@ -208,11 +210,11 @@ Section KeyedInstance.
   Qed.
 
   Theorem compare_to_iff_keyed : forall L R es,
-    wf_doc L = true -> wf_doc R = true -> untagged L = true -> untagged R = true ->
+    wf_doc L = true -> wf_doc R = true ->
     kguard am hm L R = true ->
     compare_to path_eq cfg L R = Ok es -> shows_difference es = negb (equiv am hm L R).
   Proof.
-    intros L R es HwL HwR HuL HuR HG H.
+    intros L R es HwL HwR HG H.
     apply (compare_to_iff_G path_eq cfg am hm Hu KG KG_map KG_leaf KG_zip KG_value KG_equal KG_key L R es); auto.
   Qed.
 End KeyedInstance.
@@ -240,7 +242,7 @@ Qed.
 Lemma nonsame_iff_differ_keyed :
   forall path_eq cfg am hm L R es,
     uniform cfg am hm -> c_keys cfg = [] ->
-    wf_doc L = true -> wf_doc R = true -> untagged L = true -> untagged R = true ->
+    wf_doc L = true -> wf_doc R = true ->
     kguard am hm L R = true ->
     compare_to path_eq cfg L R = Ok es ->
     shows_difference es = negb (equiv am hm L R).
@@ -249,10 +251,10 @@ Proof. intros. eapply compare_to_iff_keyed; eauto. Qed.
 Lemma reflexive_keyed :
   forall path_eq cfg am hm L es,
     uniform cfg am hm -> c_keys cfg = [] ->
-    wf_doc L = true -> untagged L = true -> kguard am hm L L = true ->
+    wf_doc L = true -> kguard am hm L L = true ->
     compare_to path_eq cfg L L = Ok es -> shows_difference es = false.
 Proof.
-  intros path_eq cfg am hm L es Hu Hc Hw Hun HG H.
-  rewrite (compare_to_iff_keyed path_eq cfg am hm Hu Hc L L es Hw Hw Hun Hun HG H).
+  intros path_eq cfg am hm L es Hu Hc Hw HG H.
+  rewrite (compare_to_iff_keyed path_eq cfg am hm Hu Hc L L es Hw Hw HG H).
   rewrite (equiv_refl_keyed am hm L Hw HG). reflexivity.
 Qed.
